@@ -1,1 +1,4 @@
 pub mod c01;
+pub mod c24;
+pub mod c27;
+pub mod c28;
